@@ -1,6 +1,5 @@
 use common::{
     expr::{EvaluationError, NoInverseForMatrix},
-    num::integer::{gcd as _gcd, lcm as _lcm},
     num_complex::Complex64,
     variable::{
         value::{matrix::Matrix, Value},
@@ -53,8 +52,26 @@ define_calculator_native_function!(log2, (val: number), Ok(Value::Number(val.log
 define_calculator_native_function!(log10, (val: number), Ok(Value::Number(val.log10())));
 define_calculator_native_function!(ln, (val: number), Ok(Value::Number(val.ln())));
 define_calculator_native_function!(sqrt, (val: number), Ok(Value::Number(val.sqrt())));
-define_calculator_native_function!(gcd, (first: integer, second: integer), Ok(Value::Number(Complex64::from(_gcd(first as i64, second as i64) as f64))));
-define_calculator_native_function!(lcm, (first: integer, second: integer), Ok(Value::Number(Complex64::from(_lcm(first as i64, second as i64) as f64))));
+define_calculator_native_function!(gcd, (first: integer, second: integer), Ok(Value::Number(Complex64::from(_gcd(first, second)))));
+define_calculator_native_function!(lcm, (first: integer, second: integer), Ok(Value::Number(Complex64::from(_lcm(first, second)))));
+
+/// Greatest common divisor of two integer-valued floats by Euclid's algorithm.
+/// `%` on floats is exact, so this is correct for integers beyond the range of i64 as well.
+fn _gcd(first: f64, second: f64) -> f64 {
+    let (mut a, mut b) = (first.abs(), second.abs());
+    while b != 0.0 {
+        (a, b) = (b, a % b);
+    }
+    a
+}
+
+/// Least common multiple of two integer-valued floats (zero if either is zero)
+fn _lcm(first: f64, second: f64) -> f64 {
+    if first == 0.0 || second == 0.0 {
+        return 0.0;
+    }
+    (first * (second / _gcd(first, second))).abs()
+}
 
 #[rustfmt::skip]
 pub fn get_constants() -> VariableMap<'static> {
